@@ -511,7 +511,7 @@ func (x *FnCtx) typeInv(v Value, t types.Type, h *Heap) *Term {
 		c := tb.And(x.le(z, vv.Off), x.le(z, vv.Len), x.le(vv.Len, vv.Cap), tb.Le(tb.IntC(0), vv.Arr),
 			tb.Implies(tb.Eq(vv.Arr, tb.IntC(0)), tb.Eq(vv.Cap, z)))
 		if !x.bv {
-			c = tb.And(c, tb.Le(tb.Add(vv.Off, vv.Cap), tb.IntB(pow2(62))))
+			c = tb.And(c, tb.Le(tb.Add(vv.Off, vv.Cap), tb.IntB(pow2(62))), tb.Le(vv.Len, tb.IntB(pow2(62))), tb.Le(vv.Cap, tb.IntB(pow2(62))), tb.Le(vv.Off, tb.IntB(pow2(62))))
 		} else {
 			c = tb.And(c, x.le(vv.Cap, x.intConst(pow2(40), nil)), x.le(vv.Off, x.intConst(pow2(40), nil)))
 		}
